@@ -311,6 +311,9 @@ class ResNetwork(GeoNetwork):
         # and update R
         self.update_R()
 
+        # invalidate the stored effective resistances
+        self._effective_resistances = None
+
     def update_admittance(self):
         """
         Updates admittance matrix which is inverse the resistances
